@@ -25,6 +25,20 @@ structure Rec (κ ν : Type) where
 
 abbrev Store (ι κ ν : Type) := List (ι × Rec κ ν)
 
+/-- the ways a dispatched message can go, as far as the dispatcher is concerned -/
+inductive MsgKind where
+  /-- no `method` member (or an empty one): answered "invalid request" / dropped before anything else -/
+  | noMethod
+  /-- no handler registered: -32601 / dropped -/
+  | unknownMethod
+  /-- the handler returned a pair -/
+  | handlerReturned
+  /-- the handler raised: -32603 / dropped -/
+  | handlerRaised
+  /-- the handler returned something that is not a pair: -32603 / dropped -/
+  | handlerNonsense
+  deriving DecidableEq, Repr
+
 inductive Op (ι κ ν : Type) where
   /-- `create_session(client_info, protocol_version)`; `id` is the id supply's choice -/
   | create (id : ι) (client : κ) (version : ν)
@@ -47,6 +61,13 @@ inductive Op (ι κ ν : Type) where
   | init (sid : Option ι) (id : ι) (client : Option κ) (requested : Option ν)
   /-- `handle_message(m, session_id = sid)` for any other message `m` that has a method -/
   | request (sid : Option ι)
+  /-- `handle_message(initialize WITHOUT id, session_id = sid)`: the handler creates the session,
+  then fails to build a response for a null id; the dispatcher swallows that and returns nothing —
+  the session stays, and nobody is told its id -/
+  | initSilent (sid : Option ι) (id : ι) (client : Option κ) (requested : Option ν)
+  /-- `handle_message(m, session_id = sid)` for a message of the given kind (request or notification
+  alike): what the dispatcher does with the session BEFORE and independently of the handler -/
+  | message (sid : Option ι) (k : MsgKind)
 
 /-- what an operation hands back; `σ` is the type of a listing -/
 inductive Out (ι κ ν σ : Type) where
@@ -130,6 +151,13 @@ def step (cfg : Cfg κ ν) (s : Store ι κ ν) (now : Int) :
     (put (touchOpt s sid now) id ⟨c.getD cfg.noClient, cfg.answer rq, now, now⟩,
       .inited id (cfg.answer rq))
   | .request sid => (touchOpt s sid now, .unit)
+  | .initSilent sid id c rq =>
+    (put (touchOpt s sid now) id ⟨c.getD cfg.noClient, cfg.answer rq, now, now⟩, .unit)
+  | .message sid k =>
+    (match k with
+      | .noMethod => s  -- `if not method: return …` comes before the activity update
+      | _ => touchOpt s sid now,  -- the update comes before handler lookup and call
+     .unit)
 
 /-- a history: each operation with the clock value at which it runs -/
 abbrev Hist (ι κ ν : Type) := List (Int × Op ι κ ν)
@@ -154,6 +182,7 @@ def trace (cfg : Cfg κ ν) (s : Store ι κ ν) : Hist ι κ ν → List (Store
 def Op.newId : Op ι κ ν → Option ι
   | .create id _ _ => some id
   | .init _ id _ _ => some id
+  | .initSilent _ id _ _ => some id
   | _ => none
 
 /-- ids handed out by the id supply along a history (creates and initializes), oldest first -/
